@@ -29,10 +29,28 @@ PROPS = {
     "C05": dict(
         level="proof",
         lean=["Rio.Props.C05"],
-        engines=["hash"],
-        classes=["format"],
+        engines=["hash", "unpack"],
+        classes=["format", "valid-archive-refused"],
         rule=HASH_RULE,
         trusted_base=[SHA, CODEC],
+        assumptions=[],
+    ),
+    "C12": dict(
+        level="proof",
+        lean=["Rio.Props.C12"],
+        engines=["filt", "unpack"],
+        classes=["filter-reject", "filter-attr", "filter-dev-ignore", "filter-stack", "filter-prehash", "filter-warm-cache"],
+        rule="filt: every complete pack filter (3x2x3x2x3x3) and unpack filter (3x3x2x2x3x3) setting x a zoo of 42 entries (all kinds x setid/sticky/plain perms), quick tier a third of them; stacking of partial filters over the CLI defaults. unpack: generated filesets encoded as tar, unpacked (nilfs) under random filters; oracle = independent Go implementation of the documented per-attribute rule + reference tree hash of the filtered fileset. Distinct = distinct (filter, entry) pairs / wareIDs.",
+        trusted_base=[SHA, CODEC],
+        assumptions=["filter values are the documented non-negative ones (uid/gid/mtime), as in the property's quantifier"],
+    ),
+    "C17": dict(
+        level="proof",
+        lean=["Rio.Props.C17"],
+        engines=["unpack"],
+        classes=["panic-empty-archive", "panic-absolute-name", "panic-duplicate-entry", "panic-malformed-tree", "panic-other", "uncategorized"],
+        rule="unpack: generated tar streams (valid, truncated at arbitrary and block offsets, bit-flipped, padded, with duplicate / absolute / .. / odd-typed / hardlink / global-header entries, children of files, empty) through the real unpackTar with recover(); oracle: no panic and every error carries a rio-* category. Distinct = distinct prefilter wareIDs of accepted streams.",
+        trusted_base=[CODEC],
         assumptions=[],
     ),
     "C18": dict(
